@@ -16,6 +16,10 @@ CLAIMED["C16"] = ("model_checking", "5 C16",
     "Inductive step: one list operation from an arbitrary valid focus on the real MonitoredFocusList, against a built-in list and the statement's focus rule; "
     "the focus is a solver variable, indices/slice fields are enumerated through the solver with a coverage certificate.",
     "z3 trusted; lists of up to 4 (quick) / 5 (thorough) distinct items, slice fields within [-n-2, n+2], steps within +-3.")
+CLAIMED["C18"] = ("model_checking", "5 C18",
+    "Nearest-colour tables decided by one solver query per table over the whole domain; description templates with symbolic digit characters parsed by the real "
+    "code and compared with the documented number arithmetic; finite description domains enumerated through the solver for the string round trip; arbitrary short ASCII strings for rejection.",
+    "z3 trusted; tables read from the imported module; non-ASCII descriptions and the 2^24 string round trip outside.")
 NOT_YET = {}
 TECH = "bounded symbolic execution of the real urwid code (AST-lifted import of /repo) with z3 deciding every path obligation; counterexamples replayed on the un-lifted code"
 def main():
